@@ -224,7 +224,7 @@ Rollback ==
   /\ Chk("C28", "rollback-restores-state", E.before.vd = E.after.vd)
   /\ Chk("C28", "rollback-restores-saved-bytes", E.before.sd = E.after.sd)
   /\ Chk("C28", "next-change-is-byte-identical", E.next_a = E.next_c)
-  /\ (E.front # "auto") => ObsOK(E.r, applied[E.r],
+  /\ (E.front # "auto" /\ Len(E.iso) = 0) => ObsOK(E.r, applied[E.r],
                                   PruneBranch(chg, queue[E.r], actor[E.r], ActorSeq(chg, applied[E.r], actor[E.r]) + 1), chg)
   /\ IF E.front # "auto" THEN Adopt(E.r) ELSE UNCHANGED <<applied, queue>>
   /\ UNCHANGED <<chg, actor, digests>>
